@@ -519,6 +519,10 @@ def wl_totality(ctx, rng, i):
             key20 = "raised:%s@%s" % (type(e).__name__, where_raised(e))
             if isinstance(e, ValueError) and "satisfiable with the same object type" in str(e):
                 key20 = "cross-type-and-refused"
+            elif has_consecutive_indices(a) or has_consecutive_indices(b):
+                key20 = "consecutive-index-steps-unmodelled"
+            elif has_exists(a) or has_exists(b):
+                key20 = "exists-unmodelled"
             ctx.violation(key20, "equivalent_patterns(stix_version='2.0') raised %s" % type(e).__name__,
                           {"pattern1": at, "pattern2": bt, "exception": repr(e)[:300]})
     ctx.count("totality_pairs")
